@@ -10,7 +10,7 @@ EXPLANATION = "Proved per type: validated_value accepts iff the (abstract) depen
 LEVEL_TEXT = "Deductive proof of cutplace's share per field type; bounded stand-ins for create_range_from_length and the DateTime layout translation; bounded audits for the dependency axioms."
 LEVEL_NOTE = "Trusts the dependency axioms (audited), the pyvc encoding, z3/cvc5."
 TECHNIQUE = "contract-based deductive verification (VCs from the ast of the real functions, z3/cvc5) + bounded stand-ins"
-UNITS = [FT.unit_choice_init(), FT.unit_constant_init(), FT.unit_integer_init(), FT.unit_datetime_init(), FT.unit_decimal_init(), FT.unit_text_init(), FT.unit_length_range_sweep(), FT.unit_types_sweep(), FT.unit_integer_validated_value(), FT.unit_decimal_validated_value(), FT.unit_choice_constant_text(), FT.unit_datetime_regex_pattern(), ST.unit_field_class_structure(), F.unit_validated(), R.unit_range_validate(), R.unit_decimal_range_validate()]
+UNITS = [FT.unit_choice_init(), FT.unit_constant_init(), FT.unit_integer_init(), FT.unit_datetime_init(), FT.unit_decimal_init(), FT.unit_decimal_separators(), FT.unit_text_init(), FT.unit_length_range_sweep(), FT.unit_types_sweep(), FT.unit_integer_validated_value(), FT.unit_decimal_validated_value(), FT.unit_choice_constant_text(), FT.unit_datetime_regex_pattern(), ST.unit_field_class_structure(), F.unit_validated(), R.unit_range_validate(), R.unit_decimal_range_validate()]
 from contracts import tools as TL
 UNITS += [TL.unit_tokenize_without_space(), TL.unit_generated_tokens(), TL.unit_token_text()]
 from props import _groups as _G
